@@ -15,9 +15,9 @@ from .. import gens, pc
 from ..common import Skip, brief
 
 ID = "C14"
-CASES = {"quick": 2400, "thorough": 30000}
+CASES = {"quick": 3200, "thorough": 36000}
 FLOOR = {"quick": 1600, "thorough": 20000}
-FLOOR_COUNTERS = {"quick": {"fits_judged": 3500, "nested_pairs": 1200, "new_data_calls": 3000, "y1d_cases": 300}, "thorough": {"fits_judged": 45000, "nested_pairs": 15000, "new_data_calls": 40000, "y1d_cases": 4000}}
+FLOOR_COUNTERS = {"quick": {"fits_judged": 3500, "nested_pairs": 1200, "new_data_calls": 3000, "y1d_cases": 300, "default_n_components_fits": 100}, "thorough": {"fits_judged": 45000, "nested_pairs": 15000, "new_data_calls": 40000, "y1d_cases": 4000, "default_n_components_fits": 1200}}
 RULE = (
     "case = centred X, Y (1-D and 2-D), mixing in (0,1], space in {feature, sample}, regressor in the admissible set, "
     "k in [1, rank]; the fit for k and, when k+1 <= rank, for k+1 (full solver) are judged: projector algebra on training "
@@ -44,7 +44,8 @@ def gen(rng, tier, index):
         "reg": reg,
         "mixing": float(gens.pick(rng, (0.05, 0.3, 0.5, 0.8, 0.95, 1.0))),
         "k": k,
-        "space": gens.pick(rng, ("feature", "sample")),
+        "space": gens.pick(rng, ("feature", "sample", "feature", "sample", "auto")),
+        "defaults": bool(rng.random() < 0.15),  # n_components=None, svd_solver="auto"
         "Z": rng.normal(size=(nz, X.shape[1])) * float(np.abs(X).max()),
     }
 
@@ -66,6 +67,9 @@ def run(case, j):
     Yh, W = pc.oracle_yhat(reg, X, Y)
     w = pc.spectrum(pc.ktilde(a, X, Yh))
     rank = int((w > 1e-10 * w[0]).sum())
+    if case.get("defaults"):
+        k = min(n, m)
+        j.note("default_n_components_fits")
     two = k + 1 <= min(rank, min(n, m))
     if not pc.gap_guard(w, k + 1 if two else k):
         raise Skip("eigen-gap-guard")
@@ -75,7 +79,10 @@ def run(case, j):
     ests = {}
     with pc.Capture() as cap:
         for kk in ([k, k + 1] if two else [k]):
-            ests[kk] = pc.fit_pcovr(j, f"k={kk}", X, Y, reg, mixing=a, n_components=kk, space=space, svd_solver="full")
+            if case.get("defaults"):
+                ests[kk] = pc.fit_pcovr(j, "defaults", X, Y, reg, mixing=a, space=space)
+            else:
+                ests[kk] = pc.fit_pcovr(j, f"k={kk}", X, Y, reg, mixing=a, n_components=kk, space=space, svd_solver="full")
     for kk, est in ests.items():
         j.note("fits_judged")
         T = np.asarray(est.transform(X))
@@ -92,7 +99,8 @@ def run(case, j):
         G = T.T @ T
         j.close("latent coordinates orthogonal with squared norms == retained eigenvalues", G, np.diag(w[:kk]), tol * w[0] * 10)
         if cap.ker or cap.cov:
-            wc = pc.spectrum((cap.ker if space == "sample" else cap.cov)[0])
+            used = getattr(est, "space_", space)
+            wc = pc.spectrum((cap.ker if used == "sample" and cap.ker else (cap.cov if cap.cov else cap.ker))[0])
             j.close("squared norms == eigenvalues of the captured matrix", np.diag(G), wc[:kk], tol * w[0] * 10)
         Tb = np.asarray(est.transform(est.inverse_transform(T)))
         j.close("transform(inverse_transform(T)) == T", Tb, T, tol * sT * 10)
